@@ -15,6 +15,9 @@ pub struct CrashDomain {
     pub force_syncs: bool,
     pub owns: fn(&Violation) -> bool,
     pub nontrivial: fn(&CrashRun) -> bool,
+    /// adjust the decoded sequential case (exclusions, sizes)
+    pub tweak: fn(&mut crate::case::SeqCase, &RawCase, u8, &Exclusions),
+    pub case_tags: fn(&crate::case::SeqCase) -> Vec<String>,
 }
 
 fn crash_classes(r: &CrashRun, c: &CrashCase) -> Vec<String> {
@@ -55,8 +58,10 @@ impl Domain for CrashDomain {
     fn strategy(&self, _tier: Tier) -> BoxedStrategy<RawCase> {
         raw_strategy(16, (self.profile)().max_ops, 200, 200).boxed()
     }
-    fn decode(&self, raw: &RawCase, _excl: &Exclusions) -> Value {
-        serde_json::to_value(decode_crash(raw, &(self.profile)(), self.force_syncs)).unwrap()
+    fn decode(&self, raw: &RawCase, excl: &Exclusions) -> Value {
+        let mut c = decode_crash(raw, &(self.profile)(), self.force_syncs);
+        (self.tweak)(&mut c.seq, raw, 12, excl);
+        serde_json::to_value(c).unwrap()
     }
     fn run(&self, case: &Value, _excl: &Exclusions) -> CaseResult {
         let case: CrashCase = match serde_json::from_value(case.clone()) {
@@ -71,7 +76,19 @@ impl Domain for CrashDomain {
                 }
             }
         };
-        let run = run_crash(&case, &(self.cfg)());
+        let mut run = run_crash(&case, &(self.cfg)());
+        if let Some(v) = &mut run.violation {
+            v.tags.extend((self.case_tags)(&case.seq));
+            if run.growth.new_refblocks > 0 {
+                v.tags.push("growth:refblock".into());
+            }
+            if run.growth.reftable_changed {
+                v.tags.push("growth:reftable".into());
+            }
+            if run.growth.l1_changed {
+                v.tags.push("growth:l1".into());
+            }
+        }
         let verdict = if let Some(m) = &run.inconclusive {
             Verdict::Inconclusive(m.clone())
         } else {
@@ -85,7 +102,7 @@ impl Domain for CrashDomain {
             verdict,
             nontrivial: (self.nontrivial)(&run),
             classes: crash_classes(&run, &case),
-            excluded: vec![],
+            excluded: case.seq.excluded.clone(),
             counters: vec![],
         }
     }
@@ -150,6 +167,8 @@ impl Prop for C04 {
                 max_images: 400,
             },
             force_syncs: false,
+            tweak: super::seqdom::no_tweak,
+            case_tags: super::seqdom::no_tags,
             owns: |v| v.has_tag("crash") && matches!(v.rule, Rule::CheckCorrupt | Rule::CheckUnder),
             nontrivial: |r| r.stats.nontrivial_images > 0,
         })]
@@ -193,6 +212,8 @@ impl Prop for C05 {
                 max_images: 120,
             },
             force_syncs: true,
+            tweak: super::seqdom::no_tweak,
+            case_tags: super::seqdom::no_tags,
             owns: |v| v.has_tag("durable"),
             nontrivial: |r| r.stats.durable_checks > 0 && r.stats.nontrivial_images > 0,
         })]
